@@ -56,6 +56,7 @@ def case_strategy(draw, max_ops):
         if kind == "add":
             op["name"] = "x%d" % j
             op["default"] = draw(st.sampled_from([None, "0", "'q'", "42"]))
+            op["size"] = draw(st.sampled_from([None, None, [12], [8, 3]]))
             names.append(op["name"])
         elif kind == "drop":
             if len(names) < 2:
@@ -77,6 +78,9 @@ def case_strategy(draw, max_ops):
             if kind == "fk":
                 op["rcols"] = ["o%d" % i for i in range(k)]
                 op["rschema"] = draw(st.sampled_from([None, "rs"]))
+                op["on_delete"] = draw(st.sampled_from([None, None, "CASCADE", "RESTRICT"]))
+                op["on_update"] = draw(st.sampled_from([None, None, "CASCADE", "restrict"]))
+                op["delete_first"] = draw(st.booleans())
         elif kind == "check":
             op["col"] = draw(st.sampled_from(names))
             op["cname"] = draw(st.sampled_from([None, "ck%d" % j]))
@@ -134,7 +138,7 @@ def op_tokens(case, op):
     toks = alt_head(case, op)
     con = (K("CONSTRAINT") + [I(op["cname"])]) if op.get("cname") else []
     if kind == "add":
-        toks += K("ADD") + [I(op["name"]), T("int")]
+        toks += K("ADD") + [I(op["name"]), T("numeric" if op.get("size") else "int")] + gen.size_tokens(op.get("size"))
         if op["default"]:
             toks += K("DEFAULT") + [L(op["default"]) if op["default"].startswith("'") else N(op["default"])]
     elif kind == "drop":
@@ -157,7 +161,8 @@ def op_tokens(case, op):
                 toks.append(COMMA)
             toks.append(I(c))
     elif kind == "fk":
-        ref = {"schema": op["rschema"], "table": "rt", "column": None, "on_delete": None, "on_update": None}
+        ref = {"schema": op["rschema"], "table": "rt", "column": None, "on_delete": op.get("on_delete"), "on_update": op.get("on_update"),
+               "delete_first": op.get("delete_first", True)}
         toks += K("ADD") + con + K("FOREIGN", "KEY") + plist([[I(c)] for c in op["cols"]]) + gen.reference_tokens(ref, op["rcols"])
     toks.append(END)
     return toks
@@ -195,7 +200,8 @@ def apply_op(models, op):
     k = op["kind"]
     if k == "add":
         d = op["default"]
-        m["cols"].append({"name": op["name"], "type": "int", "size": None, "default": (int(d) if d and d.isdigit() else d), "unique": False})
+        m["cols"].append({"name": op["name"], "type": "numeric" if op.get("size") else "int", "size": gen.expected_size(op.get("size")),
+                          "default": (int(d) if d and d.isdigit() else d), "unique": False})
         m["acols"].append(("add", op["name"]))
     elif k == "drop":
         m["cols"] = [c for c in m["cols"] if c["name"] != op["col"]]
@@ -225,7 +231,7 @@ def apply_op(models, op):
         m["defaults"].append((op["cname"], op["value"], list(op["cols"])))
     elif k == "fk":
         for c, r in zip(op["cols"], op["rcols"]):
-            m["acols"].append(("fk", c, op["cname"], op["rschema"], "rt", r))
+            m["acols"].append(("fk", c, op["cname"], op["rschema"], "rt", r, op.get("on_delete"), op.get("on_update")))
     elif k == "index":
         m["index"].append((op["name"], op["unique"], [c for c, _, _ in op["cols"]],
                            [(c, (o or "ASC"), (n or "LAST")) for c, o, n in op["cols"]]))
@@ -251,7 +257,7 @@ def compare_table(out, tag, e, m, ddl):
     for c in a.get("columns", []):
         if c.get("references"):
             r = c["references"]
-            g.append(("fk", c["name"], c["constraint_name"], r["schema"], r["table"], r["column"]))
+            g.append(("fk", c["name"], c["constraint_name"], r["schema"], r["table"], r["column"], r.get("on_delete"), r.get("on_update")))
     # entries of plain ADD column statements share the column dict (so they follow later renames);
     # the property only fixes the recorded foreign keys
     if g != [x for x in m["acols"] if x[0] == "fk"]:
